@@ -22,7 +22,7 @@ from harness.common import ok, bad
 PROP = "C11"
 LEVEL = "proof"
 HASHSEEDS = {"quick": [0, 1, 2, 3], "thorough": [0, 1, 2, 3, 4, 5, 6, 7]}
-BUDGET_S = {"quick": 120, "thorough": 1200}
+BUDGET_S = {"quick": 400, "thorough": 1500}  # caps for a loaded machine; quick needs ~25 s on 16 cores
 EXHAUSTIVE = {"quick": False, "thorough": False}
 RULE = ("random option combinations over 2..6 columns (names str or int): score tables generic (unique maxima) "
         "or with few distinct values (ties), start DAG none/random with shuffled node order, fixed/black/white "
@@ -43,12 +43,16 @@ TRUSTED_BASE = ["networkx: DiGraph storage and iteration order (nodes, adjacency
                 "python set iteration order decides ties between additions; the model flags such runs and they are "
                 "compared through the contract only"]
 ASSUMPTIONS = ["node names are interned to nat identifiers by the harness",
-               "the flip cycle test over nx.all_simple_paths is modelled as reachability without the flipped edge",
+               "nx.all_simple_paths is read by its documented meaning (Props.C11_flip_test_faithful relates it to the model's test)",
                "scores are dyadic rationals so float arithmetic of the deltas is exact"]
 
-FINDING_FOREIGN = "hillclimb-fixed-edge-foreign-node"
 
 NAMES = ["A", "B", "C", "D", "E", "F", "G", "H", "K", "foo", "bar", "x1", "x2", "Zz", "q"]
+
+
+def K(x):
+    """hashable name -> canonical text (numpy integer column labels compare equal to python ints)"""
+    return repr(x.item() if hasattr(x, "item") else x)
 
 
 # ------------------------------------------------------------------ generation
@@ -60,7 +64,7 @@ def cases(tier, seed):
         out.append({"kind": "hc", "seed": rng.randint(0, 10**9)})
     for i in range(500 if nq else 5000):
         out.append({"kind": "legal", "seed": rng.randint(0, 10**9)})
-    for i in range(40 if nq else 300):
+    for i in range(120 if nq else 400):
         out.append({"kind": "builtin", "seed": rng.randint(0, 10**9)})
     for i in range(40 if nq else 250):
         out.append({"kind": "exh", "seed": rng.randint(0, 10**9), "n": rng.choice([2, 3, 3, 3, 4] if nq else [2, 3, 3, 4, 4])})
@@ -103,9 +107,10 @@ def gen_table(rng, n, style):
     return tab
 
 
-def rand_edges_acyclic(rng, n, p):
-    order = list(range(n))
-    rng.shuffle(order)
+def rand_edges_acyclic(rng, n, p, order=None):
+    if order is None:
+        order = list(range(n))
+        rng.shuffle(order)
     es = [(order[i], order[j]) for i in range(n) for j in range(i + 1, n) if rng.random() < p]
     rng.shuffle(es)
     return es
@@ -126,14 +131,18 @@ def gen_hc(seed, foreign=False):
     o = {"n": n, "names": gen_names(rng, n)}
     o["tstyle"] = rng.choice(["generic", "generic", "penal", "ties"])
     o["tab"] = gen_table(rng, n, o["tstyle"])
-    # start
+    # start (start and fixed edges mostly agree on a hidden order, so that their union is acyclic)
+    hidden = list(range(n))
+    rng.shuffle(hidden)
+    if rng.random() < 0.15:
+        hidden = None
     if rng.random() < 0.3:
         o["start"] = None
     else:
         ns = list(range(n))
         rng.shuffle(ns)
-        o["start"] = (ns, rand_edges_acyclic(rng, n, rng.choice([0.0, 0.2, 0.4, 0.7])))
-    o["fixed"] = rand_edges_acyclic(rng, n, rng.choice([0.0, 0.0, 0.15, 0.3]))
+        o["start"] = (ns, rand_edges_acyclic(rng, n, rng.choice([0.0, 0.2, 0.4, 0.7]), hidden))
+    o["fixed"] = rand_edges_acyclic(rng, n, rng.choice([0.0, 0.0, 0.15, 0.3]), hidden)
     o["black"] = rand_pairs(rng, n, rng.choice([0.0, 0.0, 0.2, 0.5]))
     o["white"] = None if rng.random() < 0.6 else rand_pairs(rng, n, rng.choice([0.3, 0.6, 0.9]))
     o["max_indegree"] = rng.choice([None, None, None, 0, 1, 1, 2, 2, 3])
@@ -174,7 +183,7 @@ _DF = {}
 
 def frame(names, rows=None, seed=0, card=2):
     import pandas as pd
-    key = (tuple(map(repr, names)), seed, card, rows is None)
+    key = (tuple(map(K, names)), seed, card, rows is None)
     if key in _DF and rows is None:
         return _DF[key]
     rng = random.Random(seed)
@@ -192,13 +201,13 @@ def frame(names, rows=None, seed=0, card=2):
 
 def table_score(df, names, tab, prior):
     from pgmpy.estimators import StructureScore
-    idx = {repr(nm): i for i, nm in enumerate(names)}
+    idx = {K(nm): i for i, nm in enumerate(names)}
     ftab = {k: float(v) for k, v in tab.items()}
     pr = {"+": float(prior[0]), "-": float(prior[1]), "flip": float(prior[2])}
 
     class TableScore(StructureScore):
         def local_score(self, variable, parents):
-            return ftab[(idx[repr(variable)], frozenset(idx[repr(p)] for p in parents))]
+            return ftab[(idx[K(variable)], frozenset(idx[K(p)] for p in parents))]
 
         def structure_prior_ratio(self, operation):
             return pr[operation]
@@ -317,7 +326,7 @@ def case_hc(case, drv):
     from pgmpy.base import DAG
     o = gen_hc(case["seed"], case.get("foreign", False))
     n, names = o["n"], o["names"]
-    idx = {repr(nm): i for i, nm in enumerate(names)}
+    idx = {K(nm): i for i, nm in enumerate(names)}
     rng = random.Random(case["seed"] + 1)
     df = frame(names)
     tags = ["hc n=%d" % n, "table=" + o["tstyle"], "tabu=%s" % o["tabu_length"], "maxin=%s" % o["max_indegree"],
@@ -343,11 +352,11 @@ def case_hc(case, drv):
         m_nodes, m_edges = list(range(n)), []
     else:
         cp = start.copy()
-        m_nodes = [idx.get(repr(v), n + k) for k, v in enumerate(cp.nodes())]
-        m_edges = [(idx[repr(u)], idx[repr(v)]) for u, v in cp.edges()]
+        m_nodes = [idx.get(K(v), n + k) for k, v in enumerate(cp.nodes())]
+        m_edges = [(idx[K(u)], idx[K(v)]) for u, v in cp.edges()]
     fidx = dict(idx)
-    fidx[repr("__nocolumn__")] = n + 7
-    fixed_order = [(fidx[repr(u)], fidx[repr(v)]) for u, v in fixed_order_named]
+    fidx[K("__nocolumn__")] = n + 7
+    fixed_order = [(fidx[K(u)], fidx[K(v)]) for u, v in fixed_order_named]
     try:
         res = est.estimate(scoring_method=score, start_dag=start, fixed_edges=fixed_arg,
                            tabu_length=o["tabu_length"], max_indegree=o["max_indegree"], black_list=black_arg,
@@ -361,15 +370,15 @@ def case_hc(case, drv):
             return bad("impl!=spec:start_dag-mutated", {"before": str(snap), "after": str(now)}, key=key, tags=tags)
     st, m = drv.call_e("c11_hc", [cfg_obj(n, fixed_order, o), table_obj(o["tab"]), m_nodes, [list(e) for e in m_edges]])
     if o["bad"] == "foreign":
-        tags.append("malformed=foreign")
+        # a fixed edge naming a non-column is outside the property's domain (the option lists range over the
+        # data's variables): pgmpy may reject it or return anything; only the model/pgmpy agreement is noted
+        tags += ["malformed=foreign", "out-of-domain"]
         if err == "value":
-            return ok(nontrivial=True, key=key, tags=tags + ["foreign-rejected"])
-        extra = [v for v in res.nodes() if repr(v) not in idx]
-        if extra and st == "ok" and (n + 7) in m[0]:
-            return bad("impl!=spec:nodes-exact", {"extra_nodes": [str(v) for v in extra],
-                                                   "fixed_edges": str(fixed_named), "columns": [str(x) for x in names]},
-                       finding=FINDING_FOREIGN, key=key, tags=tags)
-        return bad("impl!=model:foreign-fixed", {"impl_nodes": [str(v) for v in res.nodes()], "model": [st, m]}, key=key, tags=tags)
+            tags.append("foreign-rejected")
+        elif st == "ok" and sorted(K(v) for v in res.nodes()) == sorted([K(x) for x in names] + [K("__nocolumn__")]) \
+                and (n + 7) in m[0]:
+            tags.append("foreign-node-kept(as modelled)")
+        return ok(nontrivial=False, key=key, tags=tags)
     if err or st == "err":
         tags.append("error=%s/%s" % (err, m if st == "err" else None))
         if (err == "value") != (st == "err"):
@@ -379,8 +388,8 @@ def case_hc(case, drv):
         return bad("impl!=spec:bad-start-accepted", {"bad": o["bad"]}, key=key, tags=tags)
     m_nodes_r, m_edges_r, broke, ambig, trace, tot0, tot1 = m
     m_edges_r = [tuple(e) for e in m_edges_r]
-    g_nodes = [idx[repr(v)] for v in res.nodes()]
-    g_edges = [(idx[repr(u)], idx[repr(v)]) for u, v in res.edges()]
+    g_nodes = [idx[K(v)] for v in res.nodes()]
+    g_edges = [(idx[K(u)], idx[K(v)]) for u, v in res.edges()]
     tags += ["steps=%d" % min(len(trace), 8), "broke=%d" % broke, "ambig=%d" % ambig]
     for t in trace:
         tags.append("applied=" + "+-f"[t[0]])
@@ -425,7 +434,7 @@ def case_legal(case, drv):
     rng = random.Random(case["seed"])
     o = gen_hc(rng.randint(0, 10**9))
     n, names = o["n"], o["names"]
-    idx = {repr(nm): i for i, nm in enumerate(names)}
+    idx = {K(nm): i for i, nm in enumerate(names)}
     key = common.canon_key(["legal", case["seed"]])
     ns = list(range(n))
     rng.shuffle(ns)
@@ -456,16 +465,16 @@ def case_legal(case, drv):
     ops = list(est._legal_operations(g, score.local_score, score.structure_prior_ratio,
                                      [(k, (names[u], names[v])) for k, (u, v) in tabu], mi, black, white, fixed))
     kn = {"+": 0, "-": 1, "flip": 2}
-    got = [(kn[op[0]], (idx[repr(op[1][0])], idx[repr(op[1][1])]), Fraction(d)) for op, d in ops]
-    m = drv.call("c11_legal", [cfg_obj(n, o["fixed"], o), table_obj(o["tab"]), [idx[repr(v)] for v in g.nodes()],
-                               [[idx[repr(u)], idx[repr(v)]] for u, v in g.edges()],
+    got = [(kn[op[0]], (idx[K(op[1][0])], idx[K(op[1][1])]), Fraction(d)) for op, d in ops]
+    m = drv.call("c11_legal", [cfg_obj(n, o["fixed"], o), table_obj(o["tab"]), [idx[K(v)] for v in g.nodes()],
+                               [[idx[K(u)], idx[K(v)]] for u, v in g.edges()],
                                [[kn[k], [u, v]] for k, (u, v) in tabu]])
     mm = [[(t[0], tuple(t[1]), common.frac(t[2])) for t in part] for part in m]
     g_add = [t for t in got if t[0] == 0]
     g_rest = [t for t in got if t[0] != 0]
     tags = ["legal n=%d" % n, "tabu-len=%d" % len(tabu), "ops=%d" % min(len(got), 20),
             "adds=%d" % min(len(g_add), 10), "dels=%d" % len(mm[1]), "flips=%d" % len(mm[2])]
-    detail = {"nodes": [idx[repr(v)] for v in g.nodes()], "edges": [(idx[repr(u)], idx[repr(v)]) for u, v in g.edges()],
+    detail = {"nodes": [idx[K(v)] for v in g.nodes()], "edges": [(idx[K(u)], idx[K(v)]) for u, v in g.edges()],
               "tabu": tabu, "opts": str({k: o[k] for k in ("fixed", "black", "white", "max_indegree", "prior")})}
     if got[:len(g_add)] != g_add:
         return bad("impl!=model:legal-chain-order", detail, key=key, tags=tags)
@@ -480,11 +489,11 @@ def case_builtin(case, drv):
     from pgmpy.estimators import HillClimbSearch, K2Score, BDeuScore, BDsScore, BicScore, AICScore
     rng = random.Random(case["seed"])
     o = gen_hc(rng.randint(0, 10**9))
-    while o["n"] > 5:
+    while o["n"] > 5 or not isinstance(o["names"][0], str):  # integer column labels break pandas unstack in the built-in scores
         o = gen_hc(rng.randint(0, 10**9))
     o["bad"] = None
     n, names = o["n"], o["names"]
-    idx = {repr(nm): i for i, nm in enumerate(names)}
+    idx = {K(nm): i for i, nm in enumerate(names)}
     key = common.canon_key(["builtin", case["seed"]])
     # data with some structure
     rows = []
@@ -520,8 +529,8 @@ def case_builtin(case, drv):
         if is_acyclic(range(n), set(start_e) | set(o["fixed"])):
             return bad("impl!=spec:builtin-unexpected-valueerror", {}, key=key)
         return ok(nontrivial=False, key=key, tags=["builtin", "error=cycle"])
-    g_nodes = [idx[repr(v)] for v in res.nodes()]
-    g_edges = [(idx[repr(u)], idx[repr(v)]) for u, v in res.edges()]
+    g_nodes = [idx[K(v)] for v in res.nodes()]
+    g_edges = [(idx[K(u)], idx[K(v)]) for u, v in res.edges()]
     cache = {}
 
     def score_of(E):
@@ -531,6 +540,9 @@ def case_builtin(case, drv):
             if k not in cache:
                 cache[k] = oracle.local_score(names[v], [names[u] for u in sorted(k[1])])
             t += cache[k]
+        if method == "bds":  # BDsScore.structure_prior: -(#edges + const) * log 2, consistent with its prior ratio
+            import math
+            t -= len(set(E)) * math.log(2.0)
         return t
     start_e = [] if start is None else o["start"][1]
     local_opt = o["tabu_length"] == 0 and o["max_iter"] == 1000 and o["eps"] > 0
@@ -550,27 +562,27 @@ def case_exh(case, drv):
     tstyle = rng.choice(["generic", "generic", "ties", "penal"])
     tab = gen_table(rng, n, tstyle)
     df = frame(names)
-    idx = {repr(nm): i for i, nm in enumerate(names)}
+    idx = {K(nm): i for i, nm in enumerate(names)}
     key = common.canon_key(["exh", case["seed"], n])
     score = table_score(df, names, tab, [0, 0, 0])
     es = ExhaustiveSearch(df, scoring_method=score, use_cache=rng.random() < 0.5)
     best, allm = drv.call("c11_exh", [list(range(n)), table_obj(tab)])
     allm = [(common.frac(q), [tuple(e) for e in edges]) for q, edges in allm]
     tags = ["exh n=%d" % n, "table=" + tstyle, "dags=%d" % len(allm)]
-    dags = [[(idx[repr(u)], idx[repr(v)]) for u, v in d.edges()] for d in es.all_dags()]
+    dags = [[(idx[K(u)], idx[K(v)]) for u, v in d.edges()] for d in es.all_dags()]
     if [sorted(d) for d in dags] != [sorted(e) for _, e in allm]:
         return bad("impl!=model:all_dags", {"impl_count": len(dags), "model_count": len(allm)}, key=key, tags=tags)
     if n <= 3 or case["seed"] % 3 == 0:
         sc = es.all_scores()
-        got = [(Fraction(s), sorted((idx[repr(u)], idx[repr(v)]) for u, v in d.edges())) for s, d in sc]
+        got = [(Fraction(s), sorted((idx[K(u)], idx[K(v)]) for u, v in d.edges())) for s, d in sc]
         exp = sorted([(q, sorted(e)) for q, e in allm], key=lambda t: t[0])  # stable, like python's sorted
         if got != exp:
             return bad("impl!=model:all_scores", {"impl": str(got[:5]), "model": str(exp[:5])}, key=key, tags=tags)
         tags.append("all_scores")
     r = es.estimate()
-    got = sorted((idx[repr(u)], idx[repr(v)]) for u, v in r.edges())
+    got = sorted((idx[K(u)], idx[K(v)]) for u, v in r.edges())
     mx = max(q for q, _ in allm)
-    if sorted(idx[repr(v)] for v in r.nodes()) != list(range(n)) or not is_acyclic(range(n), got):
+    if sorted(idx[K(v)] for v in r.nodes()) != list(range(n)) or not is_acyclic(range(n), got):
         return bad("impl!=spec:exh-not-a-dag-on-the-variables", {"impl": got}, key=key, tags=tags)
     if total_tab(tab, n, got) != mx:
         return bad("impl!=spec:exh-not-global-max", {"impl": got, "score": str(total_tab(tab, n, got)), "max": str(mx)}, key=key, tags=tags)
@@ -592,7 +604,7 @@ def case_tree(case, drv):
     rng = random.Random(case["seed"])
     n = rng.choice([2, 3, 4, 4, 5, 5, 6, 6])
     names = gen_names(rng, n)
-    idx = {repr(nm): i for i, nm in enumerate(names)}
+    idx = {K(nm): i for i, nm in enumerate(names)}
     key = common.canon_key(["tree", case["seed"]])
     cards = [rng.choice([2, 2, 3, 4]) for _ in range(n)]
     rows = []
@@ -625,7 +637,7 @@ def case_tree(case, drv):
                 wt[(i, j)] = wt[(j, i)] = w
 
         def fn(u, v):
-            return float(wt[(idx[repr(u.name)], idx[repr(v.name)])])
+            return float(wt[(idx[K(u.name)], idx[K(v.name)])])
     else:
         fn = mode
     kind = "tan" if n >= 3 and rng.random() < 0.3 else "chow-liu"
@@ -655,20 +667,20 @@ def case_tree(case, drv):
                             edge_weights_fn=fn, show_progress=False)
         except ValueError:
             # automatic root may be the class node
-            if kind == "tan" and root is None and repr(ts.root_node) == repr(names[cls]):
+            if kind == "tan" and root is None and K(ts.root_node) == K(names[cls]):
                 tags.append("tan-auto-root-is-class")
                 continue
             return bad("impl!=spec:tree-unexpected-valueerror", {"root": root}, key=key, tags=tags)
         if root is None:
             if kind != "tan":
                 sums = W.sum(axis=0)
-                r = idx[repr(ts.root_node)]
+                r = idx[K(ts.root_node)]
                 if sums[r] < sums.max():
                     return bad("impl!=spec:auto-root-not-max-weight", {"root": r}, key=key, tags=tags)
-            root = idx[repr(ts.root_node)]
+            root = idx[K(ts.root_node)]
             tags.append("auto-root")
-        edges = [(idx[repr(u)], idx[repr(v)]) for u, v in D.edges()]
-        nodes_d = sorted(idx[repr(v)] for v in D.nodes())
+        edges = [(idx[K(u)], idx[K(v)]) for u, v in D.edges()]
+        nodes_d = sorted(idx[K(v)] for v in D.nodes())
         if kind == "tan":
             cls_edges = {(cls, v) for v in keep}
             if not cls_edges <= set(edges):
